@@ -436,6 +436,7 @@ package composite
 // child that reaches the end of an iteration skipped the status check.
 //@ func parentController.shouldContinueRolling(pc, latest, observedChildren) (err)
 //@   requires validPC(pc) && validPR(latest)
+//@   requires-assumed relativeClaims(latest.revision)
 //@   // every child the latest revision claims is one it desires: syncRevisionClaims drops all other claims and addChild is only
 //@   // called for keys of latest.desiredChildMap (both outside the contracts' reach: assumed)
 //@   requires-assumed forall i int :: 0 <= i && i < len(latest.revision.Children) ==> (forall j int :: 0 <= j && j < len(latest.revision.Children[i].Names) ==> latest.desiredChildMap.FindGroupKindName(schema.GroupKind{Group: latest.revision.Children[i].APIGroup, Kind: latest.revision.Children[i].Kind}, latest.revision.Children[i].Names[j]) != nil)
@@ -454,6 +455,9 @@ package composite
 //@   invariant loop 2 [C07]: count(childStatusCheck) == count(ApplyUpdate)
 //@   ensures [C07] err == nil ==> count(childStatusCheck) == count(ApplyUpdate)
 
+// claims (ControllerRevision.Children[].Names) and the keys of a revision's desiredChildMap are names relative to the parent
+//@ pred relativeClaims(rev) = forall i int :: 0 <= i && i < len(rev.Children) ==> (forall j int :: 0 <= j && j < len(rev.Children[i].Names) ==> ufb_relativeKey(rev.Children[i].Names[j]))
+//@ pred relativeKeys(m) = forall g api.GroupVersionKind, k string :: has(m, g) && has(m[g], k) ==> ufb_relativeKey(k)
 //@ pred validClaims(c) = forall k string, n string :: has(c, k) && has(c[k], n) ==> validPR(c[k][n])
 //@ pred validPRs(prs) = len(prs) >= 1 && (forall j int :: 0 <= j && j < len(prs) ==> validPR(prs[j]))
 
@@ -463,18 +467,23 @@ package composite
 // child is on the latest revision the condition is Updated=True/OnLatestRevision.
 //@ func parentController.syncRollingUpdate(pc, parentRevisions, observedChildren) (err)
 //@   requires validPC(pc)
+//@   requires noNilChildren(observedChildren)
 //@   // shape of the revision list built by syncRevisions (every entry has a parent copy, a ControllerRevision, a hook answer and
 //@   // a child map without nil entries): syncRevisions is too large (eight loops, a fork/join) to carry these as loop invariants
 //@   // within the solvers' time, so they are relied upon here
 //@   requires-assumed validPRs(parentRevisions)
 //@   requires-assumed parentRevisions[0].syncResult != nil
 //@   requires-assumed noNilRelChildren(parentRevisions[0].desiredChildMap)
+//@   requires-assumed relativeKeys(parentRevisions[0].desiredChildMap)
+//@   requires-assumed relativeClaims(parentRevisions[0].revision)
 //@   requires-assumed forall i int :: 0 <= i && i < len(parentRevisions[0].revision.Children) ==> (forall j int :: 0 <= j && j < len(parentRevisions[0].revision.Children[i].Names) ==> parentRevisions[0].desiredChildMap.FindGroupKindName(schema.GroupKind{Group: parentRevisions[0].revision.Children[i].APIGroup, Kind: parentRevisions[0].revision.Children[i].Kind}, parentRevisions[0].revision.Children[i].Names[j]) != nil)
 //@   safety C13,C07
 //@   bind call parentController.shouldContinueRolling: gateErr
 //@   let latest = parentRevisions[0]
 //@   let status = parentRevisions[0].syncResult.Status
-//@   at parentController.shouldContinueRolling(p, l, obs) [C07]: l == latest && obs == observedChildren && count(parentController.shouldContinueRolling) == 1
+//@   bind call UniformObjectMap.Convert: observedRel
+//@   at UniformObjectMap.Convert(m, par) [C07,C08]: m == observedChildren && par == latest.parent
+//@   at parentController.shouldContinueRolling(p, l, obs) [C07]: l == latest && obs == observedRel && count(parentController.shouldContinueRolling) == 1
 //@   at parentRevision.addChild#3(pr, g, k, n) [C07]: called(parentController.shouldContinueRolling) && gateErr == nil && pr == latest
 //@   at parentRevision.removeChild#2(pr, g, k, n) [C07]: called(parentController.shouldContinueRolling) && gateErr == nil
 //@   at SetCondition#1(st, c) [C07]: st == status && st != nil && c != nil && c.Type == "Updated" && c.Status == "False" && c.Reason == "RolloutWaiting" && gateErr != nil
